@@ -45,17 +45,21 @@ class Mapper:
         self.img = img
         self.literal_structs = set()
 
-    def literal_struct(self, props):
+    def literal_struct(self, props, got=None):
+        """Invented names are resolved structurally: any generated struct (not a metamodel structure)
+        whose serde field names are the literal's property names; the one named at the position wins."""
         want = sorted(p["name"] for p in props)
-        for n, st in self.img["structs"].items():
-            if n in self.mm.structures:
-                continue
-            if sorted(struct_wire_names(st)) == want:
-                return n
-        return None
+        cands = [n for n, st in self.img["structs"].items() if n not in self.mm.structures and sorted(struct_wire_names(st)) == want]
+        if got:
+            ids = set(re.findall(r"[A-Za-z_][A-Za-z0-9_]*", got))
+            for n in cands:
+                if n in ids:
+                    return n
+        return cands[0] if cands else None
 
-    def rs(self, t):
-        """MM's Rust mapping of a type expression (without the Option wrapper)."""
+    def rs(self, t, got=None):
+        """MM's Rust mapping of a type expression (without the Option wrapper); `got` is the artefact
+        type at the position, used only to resolve invented literal-struct names."""
         k = t["kind"]
         mm = self.mm
         if k == "base":
@@ -69,12 +73,12 @@ class Mapper:
                 return ("CustomStringEnum<%s>" if b == "string" else "CustomIntEnum<%s>") % n
             return n
         if k == "array":
-            return "Vec<%s>" % self.rs(t["element"])
+            return "Vec<%s>" % self.rs(t["element"], got)
         if k == "map":
-            return "HashMap<%s,%s>" % (self.rs(t["key"]), self.rs(t["value"]))
+            return "HashMap<%s,%s>" % (self.rs(t["key"]), self.rs(t["value"], got))
         if k == "or":
             items = [i for i in t["items"] if not is_null_type(i)]
-            subs = [self.rs(i) for i in items]
+            subs = [self.rs(i, got) for i in items]
             if len(subs) == 1:
                 return subs[0]
             return "OR%d<%s>" % (len(subs), ",".join(subs))
@@ -88,15 +92,15 @@ class Mapper:
             props = t["value"].get("properties", [])
             if not props:
                 return "LSPObject"
-            n = self.literal_struct(props)
+            n = self.literal_struct(props, got)
             if n is None:
                 return "<no struct with fields %s>" % sorted(p["name"] for p in props)
             self.literal_structs.add((n, canon(t)))
             return n
         return "<%s>" % k
 
-    def field_type(self, p):
-        inner = self.rs(p["type"])
+    def field_type(self, p, got=None):
+        inner = self.rs(p["type"], got)
         opt = bool(p.get("optional")) or admits_null(p["type"])
         return ("Option<%s>" % inner) if opt else inner
 
@@ -136,8 +140,8 @@ def bisim(doc, src):
             stats["fields"] += 1
             site = "%s.%s" % (owner, p["name"])
             stats["facets"] += 1
-            want_t = norm_type(mp.field_type(p))
             got_t = norm_type(strip_box(f["type"]))
+            want_t = norm_type(mp.field_type(p, got_t))
             if got_t != want_t:
                 if got_t.startswith("Option<") != want_t.startswith("Option<"):
                     bad("option", site, "field %s is %s, metamodel (optional=%s, null-admitting=%s) maps to %s" % (site, f["type"], bool(p.get("optional")), admits_null(p["type"]), want_t))
@@ -243,7 +247,7 @@ def bisim(doc, src):
                 bad("proposed-gate", name, "alias %s feature gate does not match proposed=%s" % (name, bool(a.get("proposed"))))
             want = collections.Counter()
             for it in t["items"]:
-                want["<none>" if is_null_type(it) else norm_type(mp.rs(it))] += 1
+                want["<none>" if is_null_type(it) else norm_type(mp.rs(it, " ".join(v["payload"] or "" for v in en["variants"])))] += 1
             got = collections.Counter()
             for v in en["variants"]:
                 got["<none>" if v["payload"] is None else norm_type(strip_box(v["payload"]))] += 1
